@@ -49,6 +49,12 @@ func c06World(t *testing.T, p c06Params) rt.Result {
 		ps.Passive = p.Dir == "in"
 		ps.IdleHold = time.Second
 		ps.Cfg.NilHandler = p.NilH
+		// a plugin that needs 300 ms in OnEstablished (a third of the worlds): the hold
+		// timer runs on meanwhile; a KEEPALIVE that falls due in that time is that late
+		estDelay := time.Duration(0)
+		if p.Seed%3 == 2 {
+			estDelay = 300 * time.Millisecond
+		}
 		if p.Seed%3 == 1 {
 			// a plugin that takes half a second to clean up: the connection is closed when
 			// the hold timer expires, not when the plugin is done
@@ -90,6 +96,9 @@ func c06World(t *testing.T, p c06Params) rt.Result {
 		stopW := make(chan struct{})
 		var lwg sync.WaitGroup
 		ps.Cfg.OnEst = func(s *hz.Session) {
+			if estDelay > 0 {
+				time.Sleep(estDelay)
+			}
 			wmu.Lock()
 			pat, H := curLocal, curH
 			wmu.Unlock()
@@ -188,6 +197,9 @@ func c06World(t *testing.T, p c06Params) rt.Result {
 				rc.SendKeepalive()
 				lastRemote = w.Now()
 				w.Settle()
+				for i := 0; i < 50 && estDelay > 0 && !mon.Up(); i++ {
+					time.Sleep(10 * time.Millisecond)
+				}
 				if !mon.Up() {
 					w.Violate("%s session did not establish (min hold %v)", desc, H)
 					return
@@ -230,7 +242,10 @@ func c06World(t *testing.T, p c06Params) rt.Result {
 					if sp.Traffic == "mixed" {
 						d = time.Duration(1 + r.Int64N(int64(iv)))
 					}
-					time.Sleep(d)
+					// (d after the previous message, however long the harness waited for Established)
+					if wait := lastRemote + d - w.Now(); wait > 0 {
+						time.Sleep(wait)
+					}
 					switch {
 					case sp.Traffic == "ka" || sp.Traffic == "cease" || (sp.Traffic == "mixed" && r.IntN(2) == 0):
 						rc.SendKeepalive()
@@ -327,7 +342,7 @@ func c06World(t *testing.T, p c06Params) rt.Result {
 				if m.Type == wire.TypeKeepalive {
 					nKA++
 				}
-				if gap := m.At - prev; gap > H/3+tol {
+				if gap := m.At - prev; gap > H/3+tol+estDelay {
 					w.Violate("%s %v passed between consecutive messages from corebgp (+%v -> +%v, %s); one third of the hold time is %v", desc, gap, prev, m.At, m.Message, H/3)
 					break
 				}
